@@ -58,9 +58,16 @@ Env == <<
   [n |-> "InDocA", kind |-> "type", ty |-> Uni(<<O2("k", LS("dp"), "p", Deco("jsdoc", TNumber)), O2("k", LS("dq"), "q", TString)>>)],
   [n |-> "InDocB", kind |-> "type", ty |-> Uni(<<O2("k", LS("dp"), "p", TNumber), O2("k", LS("dq"), "q", TString)>>)],
   [n |-> "InFlagA", kind |-> "type", ty |-> Uni(<<O2("k", LS("fa"), "flag", LB(TRUE)), O2("k", LS("fb"), "q", TString)>>)],
-  [n |-> "InFlagB", kind |-> "type", ty |-> Uni(<<O2("k", LS("fa"), "flag", LS("true")), O2("k", LS("fb"), "q", TString)>>)]
+  [n |-> "InFlagB", kind |-> "type", ty |-> Uni(<<O2("k", LS("fa"), "flag", LS("true")), O2("k", LS("fb"), "q", TString)>>)],
+  \* an intersection of named types that is recursive through one of its members, with two ways into the cycle: what is stored
+  \* for Rpl must not depend on whether Cmt was complete, in progress or unknown when the intersection was printed
+  [n |-> "Aud",    kind |-> "type", ty |-> O1("by", TString)],
+  [n |-> "Cmt",    kind |-> "type", ty |-> O2("replies", Arr(Ref("Rpl")), "text", TString)],
+  [n |-> "Rpl",    kind |-> "type", ty |-> Inter(<<Ref("Aud"), Ref("Cmt")>>)],
+  [n |-> "Feed",   kind |-> "type", ty |-> O1("items", Arr(Ref("Rpl")))],
+  [n |-> "Page",   kind |-> "type", ty |-> O1("root", Ref("Cmt"))]
 >>
-Parsers == {"Tree", "A", "B", "U", "Holder", "Inline", "VA", "Bad", "P2", "VD", "UD", "InlineD", "HD", "VB", "A2", "PB2", "HN", "HJ", "InDocA", "InDocB", "InFlagA", "InFlagB"}
+Parsers == {"Tree", "A", "B", "U", "Holder", "Inline", "VA", "Bad", "P2", "VD", "UD", "InlineD", "HD", "VB", "A2", "PB2", "HN", "HJ", "InDocA", "InDocB", "InFlagA", "InFlagB", "Rpl", "Feed", "Page"}
 \* configuration with namedTypeSchemaOverrides: VA is printed as VAo
 Overrides == [VA |-> "VAo"]
 Names == {Env[i].n : i \in DOMAIN Env}
